@@ -229,6 +229,8 @@ def check(run):
     subst = {"HEX_RE": ast.Name(id="HEXRE", ctx=ast.Load()), "CAMEL_RE": ast.Name(id="CAMELRE", ctx=ast.Load())}
     if "MIN_B64_CHARS" in consts:
         subst["MIN_B64_CHARS"] = ast.Constant(value=consts["MIN_B64_CHARS"])
+    env_g = common.block_env(loop[0].body, common.enclosing_stmt(convs[0])) or {}
+    subst.update({k: v for k, v in env_g.items() if k not in (S, MV) and k not in subst})
     az = G.Atomizer(rename={S: "S"}, subst=subst, is_int=lambda e: "len(" in norm_src(e) and "/" not in norm_src(e) and "%" not in norm_src(e),
                     rewrite=[("regex.", "re.")])
     pc = G.reach(loop[0].body, common.enclosing_stmt(convs[0]), az)
